@@ -164,7 +164,7 @@ ExtSet == << <<>>, <<"d">>, <<"cds", "(", "a", "and", "not", "d", ")">>, <<"cds"
 ExtAst == << NoNode, D, Cds(Grp("and", <<A, Id("d", TRUE)>>, FALSE), FALSE), Cds(Grp("or", <<D, Score("a", 5, FALSE)>>, FALSE), FALSE) >>
 ExtrasCases ==
     {Case("extras", << R("r1", "C", 7, 0, <<>>, RenderTop(Pool[pi], PlainStyle), ExtSet[xi], ExtrasSet[ei]) >>, m, sep, "denote",
-          (ei = 7 /\ xi = 3 /\ pi = 3 /\ m = UnitMult /\ sep = 0) \/ (BaseMode = 1 /\ ei \in {2, 4} /\ m = UnitMult /\ sep = 0), <<>>,
+          (ei = 7 /\ xi = 3 /\ pi = 3 /\ m = UnitMult /\ sep = 0) \/ (BaseMode = 1 /\ m = UnitMult /\ sep = 0), <<>>,
           << [name |-> "r1", category |-> "C", cutoff |-> Scale(7, m[1], m[2]), nbhd |-> 0, superiors |-> {}, ast |-> Pool[pi], ext |-> ExtAst[xi]] >>) :
        pi \in DOMAIN Pool, xi \in DOMAIN ExtSet, ei \in DOMAIN ExtrasSet, m \in {UnitMult, <<3, 2, 1, 2>>}, sep \in {0, 5}}
 
